@@ -385,8 +385,34 @@ func runSORT(c *Ctx, g *MCG, r *Result, rule string, reach *Reach, scope PkgSet,
 
 // MERGE: jlib.merge takes from the left run unless the comparator says "left goes after right".
 func runMERGE(c *Ctx, r *Result, rule string) {
-	f := c.mustFn(r, "jlib.merge")
+	// the merge step of the hand-written merge sort: the jlib function that takes two slices of
+	// the same type and a comparator (a func-typed parameter) and calls the comparator — found by
+	// that shape, under whatever name
+	var f *ssa.Function
+	if lib := c.W.Lib["jlib"]; lib != nil {
+		for _, g := range c.W.FuncsOf(PkgSet{lib.Types: true}) {
+			if !c.REval.Set[g] || len(g.Params) < 3 || g.Signature.Recv() != nil {
+				continue
+			}
+			_, s0 := g.Params[0].Type().Underlying().(*types.Slice)
+			_, s1 := g.Params[1].Type().Underlying().(*types.Slice)
+			_, fn2 := g.Params[2].Type().Underlying().(*types.Signature)
+			if !s0 || !s1 || !fn2 || !types.Identical(g.Params[0].Type(), g.Params[1].Type()) {
+				continue
+			}
+			calls := false
+			for _, ci := range callsIn(g) {
+				if ci.Common().Value == ssa.Value(g.Params[2]) {
+					calls = true
+				}
+			}
+			if calls && (f == nil || shortFn(g) == "jlib.merge") {
+				f = g
+			}
+		}
+	}
 	if f == nil {
+		r.LoseAnchor("MERGE: no jlib function merges two slices under a comparator parameter (jlib.merge)")
 		return
 	}
 	if len(f.Params) < 3 {
